@@ -16,6 +16,10 @@ R2 `DefaultScheduler.schedule`: the target list starts as the complete declared 
 R3 matching semantics: `MatchingRule.eval` can return a true value exactly when the deployment matched and
    (the rule has no service or the service matched) -- guard truth table folded on the CFG --, only after
    the predicate loop is exhausted, every iteration compares `match` with `str(job.inputs[port].value)`
+   (on every alternative of a flow-sensitive backward value flow: temporaries such as `token = job.inputs[port]`
+   are followed when they are defined on every path of the current iteration, a helper returning the cast value is
+   inlined with its parameters bound to the call-site arguments, bound 2; a temporary that may carry the previous
+   iteration's token, another port or the un-cast token is reported)
    and a mismatch leaves without reaching a true return; `MatchingBindingFilter.get_targets` keeps a target
    iff `any` rule evaluates true for *that* target's deployment name and service (the guard of the accumulation
    folds to the rule evaluation; `<target> not in <accumulator>` is a recognised de-duplication conjunct; any other
@@ -50,7 +54,7 @@ from __future__ import annotations
 
 import ast
 
-from ..dataflow import defs_of, origins
+from ..dataflow import defs_of, origins, reaching_defs
 from ..model import AnalysisError, dotted, unparse, walk_no_nested
 from ..report import split_known
 from ..selftest import V
@@ -358,6 +362,109 @@ def _truthy_returns(g):
     return [n for n in g.nodes.values() if n.kind == "return" and may_be_truthy(n.ast)]
 
 
+class _Frame:
+    """One activation in the backward value flow of the compared operand: the function, the binding of its parameters
+    to (frame, expression, use site) of the call site, and the CFG node every *fresh* definition must lie behind (the
+    head of the predicate loop in `eval`, the entry of an inlined helper)."""
+
+    def __init__(self, f, head: int, body: set | None = None, args: dict | None = None, depth: int = 0):
+        self.f, self.head, self.body, self.args, self.depth = f, head, body or set(), args or {}, depth
+
+
+def _use_ids(g, use: ast.AST) -> list[int]:
+    return (g.ids_of(use) if isinstance(use, ast.stmt) else []) or g.node_containing(use)
+
+
+def _leaves(p, fr: _Frame, e: ast.AST, use: ast.AST, depth: int = 8) -> list[tuple[_Frame, ast.AST, ast.AST]]:
+    """What `e` (evaluated at `use`) denotes, as (frame, expression, use) leaves.  A local name is replaced by the plain
+    assignments that *reach* the use (flow-sensitive), provided every path from the function entry to the use passes one
+    of them and, when one of them sits in the loop body, every path from the loop head does too (the value belongs to
+    the current iteration, not to an earlier one); a parameter of an inlined
+    helper is replaced by the call-site argument; a call of a single resolved program function whose returns all carry a
+    value is replaced by its return expressions (bound 2).  Everything else is a leaf."""
+    e = strip_await(e)
+    if depth <= 0:
+        return [(fr, e, use)]
+    if isinstance(e, ast.IfExp):
+        return _leaves(p, fr, e.body, use, depth - 1) + _leaves(p, fr, e.orelse, use, depth - 1)
+    if isinstance(e, ast.NamedExpr):
+        return _leaves(p, fr, e.value, use, depth - 1)
+    f = fr.f
+    if isinstance(e, ast.Name):
+        all_defs = defs_of(f, e.id)
+        if e.id in fr.args and all(d.kind == "param" for d in all_defs):
+            cfr, cexpr, cuse = fr.args[e.id]
+            return _leaves(p, cfr, cexpr, cuse, depth - 1)
+        if e.id in f.params:
+            return [(fr, e, use)]
+        g = f.cfg
+        ds = reaching_defs(f, e.id, use)
+        unodes = _use_ids(g, use)
+        if ds and unodes and all(d.kind in ("assign", "walrus") and d.index is None and d.value is not None for d in ds):
+            dids = [i for d in ds for i in _use_ids(g, d.stmt)]
+            defined = bool(dids) and not any(u in dids for u in unodes) and all(g.path(g.entry, [u], avoid=dids) is None for u in unodes)
+            # a definition inside the loop must also lie on every path from the loop head (value of *this* iteration)
+            fresh = not (set(dids) & fr.body) or all(g.path(fr.head, [u], avoid=dids) is None for u in unodes)
+            if defined and fresh:
+                out = []
+                for d in ds:
+                    out.extend(_leaves(p, fr, d.value, d.stmt, depth - 1))
+                return out
+        return [(fr, e, use)]
+    if isinstance(e, ast.Call) and fr.depth < 2 and builtin(p, f, e) is None:
+        qs = [q for q in resolved(p, f, e, fanout=False)]
+        if len(qs) == 1 and qs[0] in p.functions:
+            callee = p.functions[qs[0]]
+            rets = [n for n in callee.body_nodes() if isinstance(n, ast.Return)]
+            plain = not any(isinstance(x, ast.Starred) for x in e.args) and not any(k.arg is None for k in e.keywords)
+            is_gen = any(isinstance(n, (ast.Yield, ast.YieldFrom)) for n in callee.body_nodes())
+            if rets and plain and not is_gen and not callee.decorators and all(r.value is not None for r in rets) and isinstance(callee.node, (ast.FunctionDef, ast.AsyncFunctionDef)):
+                bound = callee.cls is not None and isinstance(e.func, ast.Attribute)
+                amap = bind_args(e, callee.node, skip_self=bound)
+                nfr = _Frame(callee, callee.cfg.entry, None, {k: (fr, v, use) for k, v in amap.items()}, fr.depth + 1)
+                out = []
+                for r in rets:
+                    out.extend(_leaves(p, nfr, r.value, r, depth - 1))
+                return out
+    return [(fr, e, use)]
+
+
+def _all_leaves(p, fr, e, use, pred) -> bool:
+    ls = _leaves(p, fr, e, use)
+    return bool(ls) and all(pred(lf, le, lu) for lf, le, lu in ls)
+
+
+def _is_input_value_str(p, top: _Frame, e: ast.AST, use: ast.AST, jobp: str, keyv: str, lp: ast.AST) -> bool:
+    """`e` denotes `str(<job>.inputs[<port of this iteration>].value)` on every alternative, through temporaries
+    (`token = job.inputs[port]`; `value = token.value`; `inputs = job.inputs`) and small helpers."""
+    f = top.f
+    # the job parameter and the loop's port variable are not rebound
+    if any(d.kind != "param" for d in defs_of(f, jobp)):
+        return False
+    kd = defs_of(f, keyv)
+    if not kd or any(d.kind != "for" or d.stmt is not lp for d in kd):
+        return False
+
+    def is_name(name):
+        return lambda lf, le, lu: lf is top and isinstance(le, ast.Name) and le.id == name
+
+    def is_inputs(lf, le, lu):
+        return isinstance(le, ast.Attribute) and le.attr == "inputs" and _all_leaves(p, lf, le.value, lu, is_name(jobp))
+
+    def is_token(lf, le, lu):
+        return (isinstance(le, ast.Subscript) and not isinstance(le.slice, ast.Slice)
+                and _all_leaves(p, lf, le.value, lu, is_inputs) and _all_leaves(p, lf, le.slice, lu, is_name(keyv)))
+
+    def is_value(lf, le, lu):
+        return isinstance(le, ast.Attribute) and le.attr == "value" and _all_leaves(p, lf, le.value, lu, is_token)
+
+    def is_str(lf, le, lu):
+        return (isinstance(le, ast.Call) and builtin(p, lf.f, le) == "str" and len(le.args) == 1 and not le.keywords
+                and not isinstance(le.args[0], ast.Starred) and _all_leaves(p, lf, le.args[0], lu, is_value))
+
+    return _all_leaves(p, top, e, use, is_str)
+
+
 def _r3_eval(ctx):
     p = ctx.prog
     f = p.func(f"{RULE}.eval")
@@ -437,6 +544,7 @@ def _r3_eval(ctx):
                 mtests.append((n, x, other))
     ctx.ob("R3", "every predicate's match string is compared with the job input", bool(mtests), func=f, node=lp, instance="eval:compare",
            message="MatchingRule.eval no longer compares the predicate's match string with the job's input value")
+    top = _Frame(f, it, set(in_body))
     for n, cmp_, other in mtests:
         def atom(e, _c=cmp_):
             if e is _c:
@@ -449,14 +557,8 @@ def _r3_eval(ctx):
         ok = not (reach & (tids | {it}))
         ctx.ob("R3", "a predicate mismatch makes eval return false", ok, func=f, node=n.ast, instance="eval:mismatch",
                message="MatchingRule.eval: after a predicate mismatch a true return (or the next predicate) is still reachable")
-        # operand: str(job.inputs[port].value)
-        ok_op = False
-        for o in origins(f, other):
-            if isinstance(o, ast.Call) and builtin(p, f, o) == "str" and len(o.args) == 1:
-                for a in origins(f, o.args[0]):
-                    if (isinstance(a, ast.Attribute) and a.attr == "value" and isinstance(a.value, ast.Subscript)
-                            and dotted(a.value.value) == f"{jobp}.inputs" and isinstance(a.value.slice, ast.Name) and a.value.slice.id == keyv):
-                        ok_op = True
+        # operand: str(job.inputs[port].value) on every alternative, through temporaries / small helpers
+        ok_op = _is_input_value_str(p, top, other, cmp_, jobp, keyv, lp)
         ctx.ob("R3", "the match string is compared with str(job.inputs[port].value)", ok_op, func=f, node=cmp_, instance="eval:operand",
                message=f"MatchingRule.eval compares the match string with `{_norm(other)}` instead of str(job.inputs[{keyv}].value)")
     if mtests:
@@ -1275,6 +1377,8 @@ _ANY = f"any(({_EVAL} for matching_rule in self.matching_rules))"
 _KEEP_LOOP = f"    for target in targets:\n        if {_ANY}:\n            filtered_targets.append(target)"
 _APPLY = "        targets = await f.get_targets(job, targets)"
 _IMPORT_RANDOM = "import random"
+_CMP = "        if match != str(job.inputs[input_name].value):"
+_HELPER = "def _input_text(job, port):\n    token = job.inputs[port]\n    return str(token.value)\n"
 _INIT = f"{MBF}.__init__"
 _DECL = "self.matching_rules: MutableSequence[MatchingRule] = []"
 _MK = "MatchingRule(deployment=deployment, filter_=self.name, predicates={job['port']: job['match'] for job in deployments['job']}, service=service)"
@@ -1330,6 +1434,14 @@ VARIANTS = [
     V("predicate comparison inverted", MFILE, f"{RULE}.eval", "if match != str(job.inputs[input_name].value):", "if match == str(job.inputs[input_name].value):", "R3"),
     V("mismatch only logged", MFILE, f"{RULE}.eval", "            return False\n    return True", "            pass\n    return True", "R3"),
     V("value not cast to str", MFILE, f"{RULE}.eval", "if match != str(job.inputs[input_name].value):", "if match != job.inputs[input_name].value:", "R3"),
+    V("token read from another port than the predicate's", MFILE, f"{RULE}.eval", _CMP,
+      "        token = job.inputs[next(iter(job.inputs))]\n        if match != str(token.value):", "R3"),
+    V("token refreshed only conditionally: the previous predicate's token can be compared", MFILE, f"{RULE}.eval", _CMP,
+      "        if input_name in job.inputs:\n            token = job.inputs[input_name]\n        if match != str(token.value):", "R3"),
+    V("helper extracted, called with the match string instead of the port", MFILE, f"{RULE}.eval", _CMP,
+      "        if match != _input_text(job, match):", "R3", append=_HELPER),
+    V("temporary holds the token, comparison uses the token itself instead of its value", MFILE, f"{RULE}.eval", _CMP,
+      "        token = job.inputs[input_name]\n        if match != str(token):", "R3"),
     V("service not passed to eval", MFILE, f"{MBF}.get_targets", "service=target.service", "service=None", "R3"),
     V("empty result tolerated", MFILE, f"{MBF}.get_targets", "if len(filtered_targets) == 0:", "if len(filtered_targets) < 0:", "R3"),
     V("non-matching targets kept too", MFILE, f"{MBF}.get_targets", "            filtered_targets.append(target)", "            pass\n        filtered_targets.append(target)", "R3"),
@@ -1388,6 +1500,14 @@ VARIANTS = [
     V("logging added to eval", MFILE, f"{RULE}.eval", "    return True", "    logger.debug('matched')\n    return True", None),
     V("match value into a local first", MFILE, f"{RULE}.eval", "        if match != str(job.inputs[input_name].value):",
       "        actual = str(job.inputs[input_name].value)\n        if match != actual:", None),
+    V("repeated subscript bound to a local before the comparison", MFILE, f"{RULE}.eval", _CMP,
+      "        token = job.inputs[input_name]\n        if match != str(token.value):", None),
+    V("token, its value and the cast each in a temporary", MFILE, f"{RULE}.eval", _CMP,
+      "        token = job.inputs[input_name]\n        raw = token.value\n        actual = str(raw)\n        if match != actual:", None),
+    V("job.inputs and the token each bound to a local", MFILE, f"{RULE}.eval", _CMP,
+      "        inputs = job.inputs\n        token = inputs[input_name]\n        if match != str(token.value):", None),
+    V("input cast extracted into a module-level helper", MFILE, f"{RULE}.eval", _CMP,
+      "        if match != _input_text(job, input_name):", None, append=_HELPER),
     V("rule into a temporary before it is appended", MFILE, _INIT, f"        {_ADD}", f"        rule = {_MK}\n        self.matching_rules.append(rule)", None),
     V("rules collected in a local list, stored afterwards", MFILE, _INIT, _BUILD,
       f"    rules = []\n{_LOOP_HEAD}        rules.append({_MK})\n    self.matching_rules = rules", None),
